@@ -390,6 +390,19 @@ func runC02(c *eng.Ctx) {
 	nSent := ruleSentinelIdentity(c, "R14.6", []string{"server.(*partition).truncateUncommitted"}, "the follower falls back to truncating at its own high watermark after a single lost request and cuts off committed messages")
 	c.Check(nSent >= 1, "truncateUncommitted recognises a timed-out offset request", "", "identity comparison with nats.ErrTimeout found", "truncateUncommitted no longer retries a timed-out leader offset request")
 
+	c.Rule("R04.5", "K3")
+	ruleLeaderForgetsOldProgress(c)
+
+	// ---- rules whose current findings are recorded as known (see knownrules.go)
+	c.Rule("R02.9", "K5")
+	ruleEpochBoundaryMeansOneThing(c)
+	c.Rule("R02.2", "K1")
+	ruleNoBlindHWTruncation(c)
+	c.Rule("R08.7", "K2")
+	ruleCompactionKeepsEpochBoundaries(c)
+	c.Rule("R02.4", "K1")
+	ruleOffsetRequestFenced(c)
+
 }
 
 // ruleLeaderServesOwnEpoch (part of R02.4, shared with C04): a fetch request counts as progress of a replica only when it was
